@@ -2,10 +2,11 @@
 \* that are still open.  Devs = readings of Format.tla that are pinned to a recorded defect; Allowed = deviations the
 \* invariants tolerate.  Regular run: Devs = Allowed = open findings.  Refutation run for defect d: d in Devs, d not in Allowed.
 SPECIFICATION Spec
-CONSTANTS Devs = {"OpenBraceGapDropped", "SameLineStatementsGlued", "ElseOnNewLineGainsBlankLine"}
+CONSTANTS Devs = {"OpenBraceGapDropped", "SameLineStatementsGlued", "ElseOnNewLineGainsBlankLine", "ImportArgGapDropped"}
   Allowed = {"OpenBraceGapDropped", "SameLineStatementsGlued", "ElseOnNewLineGainsBlankLine", "BlockCommentContinuationPadded"}
   Indents = {0, 2}
   Margins = {0, 4}
   CodeMargins = {0, 6}
   ReplayIndent = 2
+  CasePairs = {"lu", "ul"}
 INVARIANTS CommentsKept NoJoin TerminalsKept StepwiseIsFunctional OneStatementPerLine NoTrailingBlanks NoDoubleBlank ContinuationVerbatim ElseStaysAttached
